@@ -119,6 +119,7 @@ fn faulted_run(initial: &std::sync::Arc<Image>, part: usize, cfg: &HistCfg, ops:
     // a close_volume that met a fault may or may not have released the volume (close_file does
     // release its handle on error; either policy keeps the API usable)
     let mut closevol_faulted = false;
+    let mut free_before: Option<u32>;
     for (i, op) in ops.iter().enumerate() {
         let fired_before = ex.disk.with(|s| s.fired.len());
         // which op will receive a one-shot fault is not known in advance under a class filter, so
@@ -141,6 +142,15 @@ fn faulted_run(initial: &std::sync::Arc<Image>, part: usize, cfg: &HistCfg, ops:
             }
             if let Op::Read { fs, .. } = op {
                 read_off = ex.files.get(*fs).cloned().flatten().and_then(|h| ex.vm.offset(Fl::Raw, h).ok());
+            }
+            // several faults in one run: once an earlier call has failed, the volume is no longer in
+            // the state the fault-free run had here (a failed create may keep the cluster it took),
+            // so "out of space" can be this call's own, truthful reason although the fault-free run
+            // succeeded - the medium says whether it can be
+            if !single && faulted_at.is_some() && matches!(op, Op::Mkdir { .. } | Op::OpenFile { .. }) {
+                free_before = Snap::open(&ex.disk.0.borrow().img, part).ok().map(|s| s.free_count());
+            } else {
+                free_before = None;
             }
             ex.exec(op)
         };
@@ -198,6 +208,11 @@ fn faulted_run(initial: &std::sync::Arc<Image>, part: usize, cfg: &HistCfg, ops:
             }
             // (a call that fails for its own reason in the fault-free run too - e.g. NotEnoughSpace -
             // still "returns an error" when a device call fails during its clean-up)
+            // (... and, after an earlier failed call of a multi-fault run, "out of space" from a
+            // call that may need up to `need` clusters when the medium had fewer free ones)
+            OpRes::Err(k) if matches!(k, Ek::NotEnoughSpace | Ek::DiskFull) && free_before.map(|f| f < if matches!(op, Op::Mkdir { .. }) { 2 } else { 1 }).unwrap_or(false) => {
+                rep.count("space_errors_after_an_earlier_fault_accepted", 1);
+            }
             OpRes::Err(k) if !acceptable_error(op, *k) && golden.get(i) != Some(&OpRes::Err(*k)) => {
                 rep.violate(v("C11.ok-despite-fault", op.kind(), &format!("fabricated answer {:?}", k), format!("{} answered {:?} although the device failed during it ({})", op.describe(), k, plan.label), mk_case(i)));
                 return false;
